@@ -4,3 +4,5 @@ pub mod fmt_spec;
 pub mod instant;
 pub mod pattern_gen;
 pub mod rfc3339;
+pub mod tzif_gen;
+pub mod tzif_ref;
